@@ -151,7 +151,7 @@ char *cmd_unix(char *path, char *ibuf)
 	int fd = socket(AF_UNIX, SOCK_STREAM, 0);
 	struct sockaddr_un addr;
 	long nw = 0, nc = 0;
-	long len = strlen(ibuf);
+	long len = ibuf ? strlen(ibuf) : 0;
 	struct sbuf *sb;
 	if (fd < 0)
 		return NULL;
